@@ -169,6 +169,32 @@ def run(ctx):
                               repr(bk)[:200], repr(got)[:200], repr(want)[:200]))
     ctx.cov['evaluations'] += d
     ctx.stage('deep-trees', cases=d)
+    # spec growth: dictutils.flatten_dict_to_keypairs against Misc!Flatten
+    from oslo_utils import dictutils
+    res3 = tlc.run('MC_Misc', workdir=ctx.work, workers=1)
+    ctx.tlc(res3, 'Misc: flatten_dict_to_keypairs reference (PairsAreLeaves)', counts_as_states=False)
+
+    def to_py(nd):
+        if nd['t'] == 'leaf':
+            return nd['v']
+        return {k: to_py(v) for k, v in nd['ents']}
+    f = 0
+    for rec in res3.records:
+        if rec['c']['k'] != 'flatten':
+            continue
+        for sep in (':', '/', ''):
+            arg = to_py(rec['c']['tree'])
+            want = [(sep.join(path), v) for path, v in rec['ref']['pairs']]
+            try:
+                got = list(dictutils.flatten_dict_to_keypairs(arg, sep))
+            except Exception as e:
+                got = 'EXC:' + type(e).__name__
+            f += 1
+            if got != want:
+                ctx.violation({'kind': 'flatten_dict'}, {'argument': repr(arg), 'separator': sep, 'expected': want, 'observed': repr(got)},
+                              'flatten_dict_to_keypairs(%r, %r) -> %r, specification %r' % (arg, sep, got, want))
+    ctx.cov['evaluations'] += f
+    ctx.stage('flatten_dict', cases=f)
     # binding self-test: an in-place implementation must be exposed
     def inplace(dictionary, secret='***'):
         for k, v in dictionary.items():
